@@ -15,10 +15,13 @@ E2: depth-bounded exhaustive enumeration of operation histories on a real
                  newline; a Text whose pieces put < > & and an entity under link-only, blink,
                  `not bold`, default-colour, conceal and default-background styles; a Text with
                  hex / rgb() / 8-bit / named colours; with and without a print style) | log | rule(2) | line(1|2) | bell |
-                 clear | show_cursor(F|T) | control("") | capture enter | capture exit |
+                 clear | show_cursor(F|T) | control("") |
+                 capture block entered through `with console.capture()` or begin_capture() |
+                 left normally, by an exception propagating out of the with-block, or through
+                 end_capture() |
                  export_text(clear=True, styles F|T) | export_html(clear=True, inline F|T)
-                 -- 25 events; captures are not nested (enter is enabled when no block
-                 is open, exit when one is)
+                 -- 27 events; captures are not nested (enter is enabled when no block
+                 is open, exit when one is, exit-by-exception for with-blocks)
     configs    = 20: color_system {None, standard, 256, truecolor} x force_terminal {F, T} at
                  width 40; four of them at width 10; every colour system with no_color=True
                  (terminal) and with NO_COLOR in _environ (not a terminal)
@@ -41,24 +44,33 @@ E2: depth-bounded exhaustive enumeration of operation histories on a real
                        configuration, as the record read through RefStyle (the styles as printed)
                      each leaves the canonical state unchanged
                    a clearing export returns what the non-clearing one is required to
-                   return and leaves an empty record (the following observation must
-                   export nothing)
+                   return and leaves an empty record: directly afterwards all four exports
+                   must come out empty, the styled one as the empty string (it also carries
+                   recorded control codes, so a record holding only bell / clear / cursor
+                   codes is seen)
+                   a console that has written nothing since it records exports ""
+                   a history that violates is reported and not extended
     canonical  = (file, record segments, thread buffer, buffer depth, log "last time",
                  reference model); a history reaching a canonical state seen before in
                  its shard is checked but not extended.  This is everything a Console
                  mutates in these events (theme stack and render hooks are untouched).
 
-Strata: "full" = all 25 events, depth <= 3 (quick) / <= 4 (thorough), 20 configurations;
+Strata: "full" = all 27 events on 20 configurations, depth <= 3 (quick) / <= 4 (thorough; the
+fourth level on the 12 width-40 configurations without NO_COLOR-by-environment);
 "core" = a 12-event core one level deeper (depth 4 quick on 6 configurations /
-depth 5 thorough on 12: the width-40 ones without no_color plus no_color=True).  Shards = configuration x first event
-(full) or x first two events (core); `states` is the sum of the per-shard distinct
-canonical states (a state reached under two first events is counted twice; core shards
-count only the histories of the additional depth).
+depth 5 thorough on those 12);
+"pair" = TWO consoles of one configuration in one history (8 events each, interleaved in
+every order, depth <= 3 quick on 3 configurations / <= 4 thorough on 2) x the 4 ways the
+two came to record (record=True in the constructor | built without, one print, then
+`.record = True`); every console has its own twin and model and all are observed after
+every history, so what one console wrote, exported or cleared must not show in the other.
+Shards = configuration x first event[s] (x construction modes); `states` is the sum of the
+per-shard distinct canonical states (a state reached under two first events is counted
+twice; core shards count only the histories of the additional depth).
 
-Measured on this sandbox (load 20-30 on 16 cores, 6 workers):
-quick     272,651 histories, 4,414 outcome signatures, ~570 CPU-s (est. 40-45 s wall on 16 idle cores)
-thorough  5,354,076 histories, 4,314,590 states, 7,939 outcome signatures, ~12,300 CPU-s
-          (38 min wall with 6 workers; est. 13-15 min on 16 idle cores)
+Measured on this sandbox (16 workers, load ~8 from other jobs):
+quick     277,260 histories, 220,015 states, 3,469 outcome signatures, ~500 CPU-s, 60 s wall
+thorough  see evidence (the previous round's version: 5.35 M histories, ~12,300 CPU-s)
 """
 import html as _html
 import io
@@ -77,7 +89,7 @@ FRESH_WORKERS = True      # one configuration per process (a Style memoises its 
 TECHNIQUE = ("depth-bounded exhaustive enumeration of print/log/rule/control/capture/export histories on a real "
              "recording Console (state = history, replayed on fresh consoles, dedup on record+file+buffer), judged "
              "against a non-recording twin console and an independent SGR/OSC-8 stream decoder")
-LEVEL_TEXT = ("Every history up to the depth bound over 25 events and 20 console configurations is executed on a real "
+LEVEL_TEXT = ("Every history up to the depth bound over 27 events and 20 console configurations (plus pairs of consoles with interleaved operations) is executed on a real "
               "recording Console and on a twin that writes directly; after every history the file, every capture result, "
               "the plain, styled and both HTML exports are compared with the twin's bytes read by an independent terminal "
               "stream decoder, and the clear / no-clear contract is checked on the canonical state. Every transition is a "
@@ -85,8 +97,8 @@ LEVEL_TEXT = ("Every history up to the depth bound over 25 events and 20 console
               "stated bounds; nothing is sampled.")
 LEVEL_NOTE = ("Trusted: CPython, vf/term.py (decoder), vf/refstyle.py, html.unescape + a tag regex, and the twin console as "
               "the definition of 'as it would have been written' (rendering itself is judged by C01-C09/C03). "
-              "Bounds: history depth 3 over 25 events + depth 4 over a 12-event core (quick) / depth 4 + depth 5 (thorough); "
-              "9 print events over 7 payloads; captures not nested; single thread.")
+              "Bounds: history depth 3 over 27 events + depth 4 over a 12-event core + depth 3 over 2 x 8 events on two consoles "
+              "(quick) / depth 4 + depth 5 + depth 4 (thorough); 9 print events over 7 payloads; captures not nested; single thread.")
 
 # ------------------------------------------------------------------ alphabet
 # print payloads: markup strings (highlighted by the console) or a list of (text, style) pieces that
@@ -293,6 +305,16 @@ class Run:
             self.file_exp = _norm(whole)
             self.twin_len = len(whole)
             self.real.record = True
+        # a console that has not written anything since it records must export nothing -- whatever
+        # other consoles did before in this process
+        try:
+            left = self.real.export_text(clear=False, styles=True)
+        except Exception:     # noqa: BLE001 -- reported by the first observation
+            left = ""
+        if left != "":
+            self.bad("export/fresh-console-exports-something",
+                     "a new console (recording %s) exports %r before anything was written to it"
+                     % ("from the constructor" if mode == "ctor" else "switched on after construction", left[:80]))
 
     # -- state
     def is_open(self):
@@ -658,12 +680,12 @@ def _signature(world, hist):
             styled = any(st[0] or st[1] or st[2] for _, st in cells)
             linked = any(st[3] for _, st in cells)
             nl = sum(1 for ch, _ in cells if ch == "\n")
-            parts.append((run.open_kind, bool(cells), styled, linked, bool(ctl), min(nl, 3), bool(run.file_exp),
-                          tuple(sorted(run.flags)), any(c in rec for c in "<&>")))
+            parts.append((run.open_kind, bool(cells), styled or linked, bool(ctl), min(nl, 2),
+                          tuple(sorted(run.flags))))
         else:
             parts.append((run.is_open(), bool(cells), bool(ctl), bool(run.flags)))
     if len(world.sides) == 1:
-        sig = (cfg[0], cfg[1], bool(cfg[3]), last) + parts[0]
+        sig = (cfg[0], bool(cfg[3]), last) + parts[0]
     else:
         sig = (cfg[0], "pair", world.modes, hist[-1][0] if hist else -1, last, tuple(parts))
     return sig, nontrivial
@@ -734,18 +756,20 @@ _PAIR_ALPHABET = [(side, ev) for ev in PAIR for side in (0, 1)]
 
 def plan(tier, seed):
     import rich.console, rich.rule, rich.table, rich.styled, rich.markup, rich.containers  # noqa: F401,E401 -- forked workers inherit the imports
+    # the small strata first: if the wall cap triggers, it cuts the last level of the full alphabet
     shards = []
-    for ci in range(len(CONFIGS)):
-        for fi in range(len(EVENTS)):
-            shards.append({"cfg": ci, "first": fi, "alpha": "full"})
-    for ci in _core_configs(tier):
-        for fi in range(len(CORE)):
-            for si in range(len(CORE)):
-                shards.append({"cfg": ci, "first": fi, "second": si, "alpha": "core"})
     for ci in _pair_configs(tier):
         for mi in range(len(MODES)):
             for fi in range(len(_PAIR_ALPHABET)):
                 shards.append({"cfg": ci, "modes": mi, "first": fi, "alpha": "pair"})
+    for ci in _core_configs(tier):
+        for fi in range(len(CORE)):
+            # thorough splits further (by the second event) to keep the shards short
+            for si in (range(len(CORE)) if tier != "quick" else (None,)):
+                shards.append({"cfg": ci, "first": fi, "second": si, "alpha": "core"})
+    for ci in range(len(CONFIGS)):
+        for fi in range(len(EVENTS)):
+            shards.append({"cfg": ci, "first": fi, "alpha": "full"})
     return shards
 
 
@@ -760,7 +784,7 @@ def _explore(cfg, root, alphabet, maxdepth, res, count_from=1, modes=("ctor",)):
     nstates = 0
     # prefixes of the root were judged by another shard; here they only have to be replayable
     world, canon = _check(cfg, root, res, counted=len(root) >= count_from, modes=modes)
-    if canon is not None and hash(canon) not in seen:
+    if canon is not None and hash(canon) not in seen and not world.problems:
         seen.add(hash(canon))
         frontier.append((root, world.models()))
         maxd = len(root)
@@ -780,7 +804,8 @@ def _explore(cfg, root, alphabet, maxdepth, res, count_from=1, modes=("ctor",)):
                 h2 = h + [sev]
                 counted = len(h2) >= count_from
                 world, canon = _check(cfg, h2, res, models, counted, modes)
-                if canon is None:
+                if canon is None or world.problems:
+                    # behaviour behind a violating transition is not explored (one defect, one key)
                     continue
                 hc = hash(canon)
                 if hc in seen:
@@ -824,9 +849,15 @@ def run_shard(sh, tier, seed):
         if enabled(first, None):
             _explore(cfg, [(0, first)], [(0, ev) for ev in EVENTS], _full_depth(tier, cfg), res)
     elif sh["alpha"] == "core":
-        first, second = CORE[sh["first"]], CORE[sh["second"]]
-        if enabled(first, None) and enabled(second, first[1] if first[0] == "begin" else None):
-            _explore(cfg, [(0, first), (0, second)], [(0, ev) for ev in CORE], core_d, res, count_from=full_d + 1)
+        first = CORE[sh["first"]]
+        root = [(0, first)]
+        ok = enabled(first, None)
+        if ok and sh["second"] is not None:
+            second = CORE[sh["second"]]
+            ok = enabled(second, first[1] if first[0] == "begin" else None)
+            root.append((0, second))
+        if ok:
+            _explore(cfg, root, [(0, ev) for ev in CORE], core_d, res, count_from=full_d + 1)
     else:
         modes = MODES[sh["modes"]]
         first = _PAIR_ALPHABET[sh["first"]]
@@ -874,7 +905,8 @@ def describe(tier, seed, res):
             "control codes inside a non-empty styled export are not judged (the statement is about characters and styles); an empty record must export the empty string",
             "HTML export: text only (tags stripped, entities decoded, <pre> body); CSS and anchors are not judged",
             "capture blocks are not nested; export inside an open block sees only what was flushed before",
-            "recording switched on after construction records from that moment on",
+            "recording switched on after construction records from that moment on; a console that has written nothing since exports the empty string",
+            "a history that violates is reported and not extended",
             "canonical state = per console (file, record segments, thread buffer, buffer depth, LogRender._last_time, reference model); theme stack and render hooks are not touched by these events",
             "states = sum over shards (configuration x first event[s]) of distinct canonical states; core shards count only histories of the additional depth",
             "the twin replays only the prefix's log events before the judged event (nothing else changes what a non-recording console writes later); every alarm, all histories of length <= 2 and every 64th one are re-run in full lock-step, whose verdict is the one reported",
